@@ -29,7 +29,7 @@ func (e *Event) condText() *string {
 }
 
 func (e *Event) writeArgs() WriteArgs {
-	return WriteArgs{Cond: e.condText(), Names: e.Names, Values: e.Values, Rvf: e.Rvf, Retold: e.Retold}
+	return WriteArgs{Cond: e.condText(), Names: e.Names, Values: e.Values, Rvf: e.Rvf, Retold: e.Retold, RetVals: e.RetVals}
 }
 
 func (e *Event) readArgs() *ReadArgs {
